@@ -103,7 +103,10 @@ def packCompressed (Z : ZLib) (threshold : Int) (p : Pkt) (pool : Pool) : Res By
     let buff := buff ++ compressPacket Z pool.zw p.id p.data
     let PacketLength := toVarInt ((buff.length : Int) - maxVarIntLen)
     let packetLengthLen := varLen PacketLength.toNat
-    let buff := buff.drop (maxVarIntLen - packetLengthLen)       -- buff.Next(MaxVarIntLen - packetLengthLen)
+    -- buff.Next(MaxVarIntLen - packetLengthLen): `Next(n)` with a negative `n` is a slice-bounds panic
+    if maxVarIntLen < packetLengthLen then .panic
+    else
+    let buff := buff.drop (maxVarIntLen - packetLengthLen)
     -- PacketLength.WriteToBytes(buff.Bytes()[:packetLengthLen]): in place, over the remaining padding
     if packetLengthLen ≤ buff.length then
       .ok (varIntBytes PacketLength ++ buff.drop packetLengthLen)
@@ -186,6 +189,32 @@ def unpackMany (Z : ZLib) (threshold : Int) (pools : Nat → Pool) : Nat → Pkt
     let p ← unpack Z threshold p₀ (pools k)
     let ps ← unpackMany Z threshold pools k p
     pure ((p.id, p.data) :: ps)
+
+/-! ### ownership of the returned payload -/
+
+/-- where the bytes of a returned `Packet.Data` live -/
+inductive Backing where
+  | fresh      -- `make([]byte, n)` in this call
+  | receiver   -- the array the receiving `Packet` already owned (`p.Data[:n]`)
+  | pooled     -- the pooled `bytes.Buffer` (which the deferred `bufPool.Put` hands to later calls)
+deriving Repr, DecidableEq
+
+/-- Both unpackers fill `p.Data` with `io.ReadFull` into `make([]byte, n)` or into the receiver's own array: the
+payload is COPIED out of the pooled buffer, no path returns a slice of it.  This is why the model can treat a
+returned `Pkt` as a value that later `Pack`/`UnPack` calls cannot change; the correspondence check `frame.hold`
+ties it to the code (packets are compared after later calls have reused the pool). -/
+def Pkt.backing (p₀ : Pkt) (n : Nat) : Backing := if p₀.cap < n then .fresh else .receiver
+
+/-- the zero `Packet` value (`var p pk.Packet`): no spare capacity -/
+def Pkt.zero : Pkt := { id := 0#32, data := [], cap := 0 }
+
+/-- `k` successive `UnPack` calls, each into a FRESH `Packet` value; all of them are kept -/
+def unpackHeld (Z : ZLib) (threshold : Int) (pools : Nat → Pool) : Nat → Rd (List Pkt)
+  | 0 => pure []
+  | k + 1 => do
+    let p ← unpack Z threshold Pkt.zero (pools k)
+    let ps ← unpackHeld Z threshold pools k
+    pure (p :: ps)
 
 /-! ### net/conn.go -/
 
